@@ -242,6 +242,107 @@ func (p *Program) FieldAccesses(f *types.Var) []fieldAccess {
 	return out
 }
 
+// ---- values that are never nil --------------------------------------------------------------------------------------
+//
+// A nil test on a value that cannot be nil is dead code whichever way it is written; the engines decide it instead of
+// forking, so that a defensive `if c.msgWriter != nil` or `if copts == nil { return … }` reads like the code without it.
+//   - a library function never returns nil in result i when every return hands out a fresh allocation (&T{…}, make, a
+//     closure) or the result of such a function;
+//   - a struct field is never nil when every store to it writes such a value into an object that the storing function
+//     has just allocated itself (a constructor), and its address is never taken.
+// Inside the constructors themselves the field may still be unset: the fact is not used there.
+
+func (p *Program) freshNonNil(v ssa.Value, depth int) bool {
+	switch x := v.(type) {
+	case *ssa.Alloc:
+		return true
+	case *ssa.MakeMap, *ssa.MakeChan, *ssa.MakeSlice, *ssa.MakeClosure:
+		return true
+	case *ssa.ChangeType:
+		return p.freshNonNil(x.X, depth)
+	case *ssa.MakeInterface:
+		return p.freshNonNil(x.X, depth)
+	case *ssa.Call:
+		if f := x.Call.StaticCallee(); f != nil && p.isLib(f) && depth < 4 {
+			return p.neverNilResult(f, 0, depth+1)
+		}
+	case *ssa.Extract:
+		if c, ok := x.Tuple.(*ssa.Call); ok {
+			if f := c.Call.StaticCallee(); f != nil && p.isLib(f) && depth < 4 {
+				return p.neverNilResult(f, x.Index, depth+1)
+			}
+		}
+	}
+	return false
+}
+
+var neverNilResCache = map[*ssa.Function]map[int]bool{}
+
+func (p *Program) neverNilResult(fn *ssa.Function, idx int, depth int) bool {
+	if m, ok := neverNilResCache[fn]; ok {
+		if v, ok := m[idx]; ok {
+			return v
+		}
+	} else {
+		neverNilResCache[fn] = map[int]bool{}
+	}
+	neverNilResCache[fn][idx] = false // cycles
+	if len(fn.Blocks) == 0 || idx >= fn.Signature.Results().Len() {
+		return false
+	}
+	n := 0
+	for _, b := range fn.Blocks {
+		ret, ok := b.Instrs[len(b.Instrs)-1].(*ssa.Return)
+		if !ok {
+			continue
+		}
+		n++
+		if idx >= len(ret.Results) || !p.freshNonNil(ret.Results[idx], depth) {
+			return false
+		}
+	}
+	neverNilResCache[fn][idx] = n > 0
+	return n > 0
+}
+
+// neverNilFields: field key ("Conn.msgWriter") ↦ the constructors that initialise it.
+func (p *Program) neverNilFields() map[string]map[*ssa.Function]bool {
+	if p.nnFields != nil {
+		return p.nnFields
+	}
+	p.nnFields = map[string]map[*ssa.Function]bool{}
+	p.structFields(func(key string, typ string, f *types.Var, idx int) {
+		switch f.Type().Underlying().(type) {
+		case *types.Pointer, *types.Map, *types.Chan, *types.Slice, *types.Signature, *types.Interface:
+		default:
+			return
+		}
+		ctors := map[*ssa.Function]bool{}
+		ok := false
+		for _, fa := range p.FieldAccesses(f) {
+			if fa.Addr {
+				return
+			}
+			if !fa.Write {
+				continue
+			}
+			x, isFA := fa.Instr.(*ssa.FieldAddr)
+			if !isFA || fa.Store == nil {
+				return
+			}
+			if _, fresh := x.X.(*ssa.Alloc); !fresh || !p.freshNonNil(fa.Store.Val, 0) {
+				return
+			}
+			ctors[fa.Fn] = true
+			ok = true
+		}
+		if ok {
+			p.nnFields[key] = ctors
+		}
+	})
+	return p.nnFields
+}
+
 // compositeInits finds composite literals / struct stores initialising field f: in SSA a
 // composite literal &T{f: v} is an Alloc followed by FieldAddr+Store, which FieldAccesses
 // already reports; nothing else is needed.
